@@ -822,6 +822,14 @@ func TestC16_em_monotone_hmm(t *testing.T) {
 		if err != nil {
 			t.Fatalf("%s: constructor %v", c.Desc(), err)
 		}
+		// either half of the M-step may be switched off: what remains is a generalised EM step, which
+		// still cannot lose likelihood, and the switched-off half must stay as it was (seed C16-5: the
+		// fixed transition matrix was cleared and became the identity)
+		optE := rapid.IntRange(0, 3).Draw(t, "optimizeEmissions") != 0
+		optT := rapid.IntRange(0, 3).Draw(t, "optimizeTransitions") != 0
+		est.OptimizeEmissions, est.OptimizeTransitions = optE, optT
+		c.Classf("optimizeEmissions=%v optimizeTransitions=%v", optE, optT)
+		c.SetDesc(c.Desc() + fmt.Sprintf(" OptimizeEmissions=%v OptimizeTransitions=%v", optE, optT))
 		// EM runs sequentially here: pooled execution (and the error a pool can lose, C17) is C17's subject
 		pool, stop := threadpool.Nil(), func() {}
 		defer stop()
@@ -877,6 +885,21 @@ func TestC16_em_monotone_hmm(t *testing.T) {
 		}
 		if structure != "plain" {
 			c.Class("structured transition matrix (monotonicity not asserted)")
+		}
+		if !optT && len(models) >= 2 {
+			// transitions are not optimised: every snapshot has the transition matrix of the first one
+			tr0 := models[0].Tr
+			for k := 1; k < len(models); k++ {
+				trk := models[k].Tr
+				for i := 0; i < m; i++ {
+					for j := 0; j < m; j++ {
+						a, b := tr0.ConstAt(i, j).GetFloat64(), trk.ConstAt(i, j).GetFloat64()
+						if !(a == b || math.Abs(a-b) <= 1e-12*(1+math.Abs(a))) {
+							t.Fatalf("%s: OptimizeTransitions is off, but the log transition (%d,%d) is %v in snapshot %d and %v in snapshot 0", c.Desc(), i, j, b, k, a)
+						}
+					}
+				}
+			}
 		}
 		if err == nil && len(trace) > 0 {
 			final, _ := est.GetEstimate()
